@@ -13,10 +13,10 @@ CHECK = dict(
     ],
     units=[
         dict(name="cmd", dir=D + "cmd", src="C20/cmd", runs=[
-            dict(name="singles", run="^TestVerifC20Singles$", quick=0, thorough=0),
-            dict(name="switches", run="^TestVerifC20Switches$", quick=0, thorough=0),
+            dict(name="singles", run="^TestVerifC20Singles$", quick=0, thorough=0, shards_quick=2, shards_thorough=2),
+            dict(name="switches", run="^TestVerifC20Switches$", quick=0, thorough=0, shards_quick=2, shards_thorough=2),
             dict(name="thresholds", run="^TestVerifC20Thresholds$", quick=0, thorough=0),
-            dict(name="mutate", run="^TestVerifC20Mutate$", quick=4000, thorough=320000, shards_quick=2, shards_thorough=8),
+            dict(name="mutate", run="^TestVerifC20Mutate$", quick=4000, thorough=240000, shards_quick=2, shards_thorough=8),
         ]),
     ],
 )
